@@ -93,7 +93,7 @@ def correspondence(ctx, model_ok=True):
     rng = ctx.rng.fork("c06")
     failures = []
     broken = []
-    n_gen = 9000 if ctx.thorough else 720
+    n_gen = 9000 if ctx.thorough else 5000
     gen = progs.generated(rng, PROFILES, n_gen)
     scripts = progs.corpus_scripts()
     corpus = progs.corpus_dir("C06")
@@ -127,7 +127,7 @@ def correspondence(ctx, model_ok=True):
         except Exception as e:
             broken.append("model driver upv: %s" % e)
     # (c) metamorphic wrappers
-    n_meta = 1800 if ctx.thorough else 180
+    n_meta = 1800 if ctx.thorough else 1200
     meta_cases = []
     for i in range(n_meta):
         body, expected = BODIES[i % len(BODIES)] if i < len(BODIES) else local_closure_body(rng.fork("m%d" % i))
